@@ -139,6 +139,36 @@ def l1_l3(prog, rep):
     rep.check(ok, "L1-writers", "AES-NI: block = unpacklo(nonce from pblk[0..7], be64(counter)), encrypted with the stream's key", ni.loc, "", function=ni.name, construct="aesni-block")
 
 
+def _aesni_loop_relational(nu, w, ld, stv):
+    from .. import poly
+    from ..poly import Lin
+    if len(ld) != 1 or len(stv) != 1 or len(w.params) < 4:
+        return False
+    P = [("v", p_["name"], p_["id"]) for p_ in w.params]
+    IN, OUT, LEN, CTR = ("*", P[1]), ("*", P[2]), ("*", P[3]), (".", ("*", P[0]), "bytectr")
+    N, I0, O0, L0, C0 = (Lin.var((x,)) for x in ("$n", "$i0", "$o0", "$l0", "$c0"))
+    names = set(c.callee for c in w.calls() if c.callee)
+    A = poly.Analysis(w, assume=[("==", N, Lin.const(0)), ("==", I0, Lin.var(IN)), ("==", O0, Lin.var(OUT)), ("==", L0, Lin.var(LEN)), ("==", C0, Lin.var(CTR)), (">=", L0, Lin.const(16))],
+                      quiet=names, unsigned_terms={LEN, CTR}, post={"_mm_storeu_si128": lambda A_, call, st, cs: A_.bump(cs, ("$n",), 1)})
+    A.any_ptr = True
+    A.run()
+    sl, ss = A.state_before(ld[0]), A.state_before(stv[0])
+    if sl is None or ss is None:
+        return False
+    la, sa_ = A.lin(ld[0].arg(0), sl), A.lin(stv[0].arg(0), ss)
+    if la is None or sa_ is None:
+        return False
+    if not (A.holds(sl, "==", la, I0 + N.scale(16)) and A.holds(ss, "==", sa_, O0 + N.scale(16))):
+        return False
+    sx = A.solver.IN.get(w.exit)
+    if sx is None:
+        return False
+    want = [(Lin.var(IN), I0 + N.scale(16)), (Lin.var(OUT), O0 + N.scale(16)), (Lin.var(LEN), L0 - N.scale(16)), (Lin.var(CTR), C0 + N.scale(16))]
+    if not all(A.holds(sx, "==", a, b) for a, b in want):
+        return False
+    return A.holds(sx, "<=", N.scale(16), L0)
+
+
 def l2_l4(prog, rep):
     u = prog.unit(SW)
     use = u.func("crypto_aesctr_stream_cipherblock_use")
@@ -220,6 +250,18 @@ def l2_l4(prog, rep):
         ok = all(w.dominates(stv[0], e) for e in ia)
     nb = [e for e in w.all_elems() if e.is_assign and sh(norm(e.kid(0))) == "num_blocks"]
     oknb = len(nb) == 1 and sh(norm(nb[0].kid(1))) == "(*buflen>>4)"
+    if not (ok and okadv and oknb):
+        # the same bookkeeping with the cursors held in locals, another counter, the totals in a temporary ...: decided by value
+        # (sa/poly.py).  A ghost $n counts the stores; the k-th load reads at (*inbuf at entry) + 16 k, the k-th store writes at
+        # (*outbuf at entry) + 16 k; at the exit *inbuf and *outbuf have advanced by 16 $n, *buflen has gone down and
+        # stream->bytectr up by 16 $n, and 16 $n <= (*buflen at entry); that every whole block is processed is the clause on
+        # num_blocks below
+        try:
+            okrel = _aesni_loop_relational(nu, w, ld, stv)
+        except Exception:
+            okrel = False
+        if okrel:
+            ok = okadv = True          # the number of blocks (oknb: num_blocks = *buflen / 16) stays the rule's own clause
     rep.check(ok and okadv and oknb, "L2-inplace", "AES-NI: load 16 input bytes, then store 16 output bytes, then advance both cursors; totals 16 * (buflen / 16)", w.loc, "%s" % adv, function=w.name, construct="aesni-loop")
     sn = nu.func("crypto_aesctr_aesni_stream")
     seq = [c.callee for c in sorted(sn.calls(), key=lambda c: c.line) if c.callee and c.callee.startswith("crypto_aesctr_")]
